@@ -84,7 +84,7 @@ _attr_scalars = st.one_of(
     st.text(max_size=8), st.sampled_from(["", "smiles", "C1=CC=CC=C1", "é"]),
     st.binary(max_size=6).map(lambda b: {"__b": b.hex()}),
 )
-_attr_keys = st.one_of(st.sampled_from(["a", "b", "name", "__x", ""]), st.text(max_size=5)).filter(lambda k: k not in ("__b", "__nd", "__ik", "dtype"))
+_attr_keys = st.one_of(st.sampled_from(["a", "b", "name", "__x", ""]), st.text(max_size=5)).filter(lambda k: k not in ("__b", "__nd", "__ik", "__tk", "dtype"))
 
 
 @functools.cache
